@@ -242,7 +242,7 @@ theorem expandSeq_sound (rec : Instruction → Outcome (Option (List Instruction
     · cases h
 
 theorem expandInnerWith_sound :
-    ∀ (fuel : Nat) (prev : List Instruction) (i : Instruction) (r : Option (List Instruction)),
+    ∀ (fuel : Nat) (prev : List κ) (i : Instruction) (r : Option (List Instruction)),
       expandInnerWith E S cals fuel prev i = .ok r → SoundAt E S cals i r := by
   intro fuel
   induction fuel with
@@ -262,7 +262,7 @@ theorem expandInnerWith_sound :
         · rename_i out hseq
           simp only [Outcome.ok.injEq] at h
           subst h
-          have hb := expandSeq_sound E S cals _ (fun j r hj => ih (i :: prev) j r hj) body out hseq
+          have hb := expandSeq_sound E S cals _ (fun j r hj => ih (E.key i :: prev) j r hj) body out hseq
           rcases oneStep_some E S cals hs with ⟨g, c, rfl, hw, rfl⟩ | ⟨m, c, rfl, hw, rfl⟩
           · have := Expands.gate (E := E) (S := S) (cals := cals) hw hb Expands.nil
             simpa [SoundAt] using this
